@@ -1047,3 +1047,33 @@ func lemmaLayoutRowsMetadata(metadata *RowsMetadata, version primitive.ProtocolV
 //@   ensures pagingstate: result1 == nil && !isnil(metadata.PagingState) ==> tokkind(result0, 2) == 7 && same(tokwin(result0, 2), win(metadata.PagingState))
 //@   ensures newid: result1 == nil && !isnil(metadata.NewResultMetadataId) ==> tokkind(result0, 2 + nState) == 8 && same(tokwin(result0, 2 + nState), win(metadata.NewResultMetadataId))
 //@   ensures pageno: result1 == nil && metadata.ContinuousPageNumber > 0 ==> tokkind(result0, 2 + nState + nId) == 3 && tokbv(result0, 2 + nState + nId) == uint64(uint32(metadata.ContinuousPageNumber))
+
+// ---- C01, token view: QUERY with options (no bound values) round-trips field by field -----------------------------
+func lemmaTokRoundTripQuery(c *queryCodec, msg *Query, version primitive.ProtocolVersion) (Message, error, bool) {
+	buf := &bytes.Buffer{}
+	if err := c.Encode(msg, buf, version); err != nil {
+		return nil, err, false
+	}
+	decoded, err := c.Decode(buf, version)
+	return decoded, err, true
+}
+
+//@ func lemmaTokRoundTripQuery
+//@   prop C01
+//@   tokens
+//@   expand message.DecodeQueryOptions
+//@   requires options: msg.Options != nil && isnil(msg.Options.PositionalValues) && isnil(msg.Options.NamedValues) && msg.Options.ContinuousPagingOptions == nil
+//@   requires fits: len(msg.Query) <= 2147483647 && len(msg.Options.PagingState) <= 2147483647 && len(msg.Options.Keyspace) <= 65535
+// (features of the version only: flags above 0x80 exist only where the flags field is 4 bytes wide)
+//@   requires version: version.Uses4BytesQueryFlags() || (msg.Options.NowInSeconds == nil && !msg.Options.PageSizeInBytes)
+//@   ensures kind: result1 == nil ==> typeis(result0, *Query) && !isnil(unbox(result0, *Query)) && unbox(result0, *Query).Options != nil
+//@   ensures query: result1 == nil ==> unbox(result0, *Query).Query == msg.Query
+//@   ensures consistency: result1 == nil ==> unbox(result0, *Query).Options.Consistency == msg.Options.Consistency
+//@   ensures skip: result1 == nil ==> unbox(result0, *Query).Options.SkipMetadata == msg.Options.SkipMetadata
+//@   ensures pagesize: result1 == nil && msg.Options.PageSize > 0 ==> unbox(result0, *Query).Options.PageSize == msg.Options.PageSize && unbox(result0, *Query).Options.PageSizeInBytes == msg.Options.PageSizeInBytes
+//@   ensures pagingstate: result1 == nil ==> isnil(unbox(result0, *Query).Options.PagingState) == isnil(msg.Options.PagingState) && len(unbox(result0, *Query).Options.PagingState) == len(msg.Options.PagingState) && same(win(unbox(result0, *Query).Options.PagingState), win(msg.Options.PagingState))
+//@   ensures serial: result1 == nil ==> (unbox(result0, *Query).Options.SerialConsistency == nil) == (msg.Options.SerialConsistency == nil) && (msg.Options.SerialConsistency != nil ==> *unbox(result0, *Query).Options.SerialConsistency == *msg.Options.SerialConsistency)
+//@   ensures timestamp: result1 == nil ==> (unbox(result0, *Query).Options.DefaultTimestamp == nil) == (msg.Options.DefaultTimestamp == nil) && (msg.Options.DefaultTimestamp != nil ==> *unbox(result0, *Query).Options.DefaultTimestamp == *msg.Options.DefaultTimestamp)
+//@   ensures keyspace: result1 == nil ==> unbox(result0, *Query).Options.Keyspace == msg.Options.Keyspace
+//@   ensures now: result1 == nil ==> (unbox(result0, *Query).Options.NowInSeconds == nil) == (msg.Options.NowInSeconds == nil) && (msg.Options.NowInSeconds != nil ==> *unbox(result0, *Query).Options.NowInSeconds == *msg.Options.NowInSeconds)
+//@   ensures accepted: result2 ==> result1 == nil
